@@ -163,6 +163,10 @@ def check(case, ctx):
         probes["ing:" + n] = ocp.sample(ca.vec(B.syms[n]), grid=grid, **kw)[1]
     for i, ve in enumerate(case["value_exprs"]):
         probes["val:%d" % i] = ocp.value(E.to_ca(ve, B, ocp))
+    # every state and quadrature state of the stage on the unrefined integrator grid (whatever the generated expression uses)
+    node_names = [n for n, d in B.decl.items() if d["kind"] in ("state", "qstate") and d["stage"] == "main"]
+    for n in node_names:
+        probes["intg:" + n] = ocp.sample(ca.vec(B.syms[n]), grid="integrator")[1]
     stage_pr = obs.stage_probes(B, "main", dc=False)
     probes.update(stage_pr)
     nlp.add_all(probes)
@@ -221,6 +225,14 @@ def check(case, ctx):
                     want = onctrl[:, idx]
                     if not close(res["ing:" + n], want, rtol=1e-12, atol=1e-12):
                         fails.append(Fail("cross-grid-ingredient", dict(feats, kind=d["kind"], vgrid=d.get("grid")), {"name": n, "on_grid": res["ing:" + n], "from_control_grid": want}))
+        # states and quadrature states: the points of the unrefined integrator grid that are control nodes carry the node values.
+        # (With refine= the points come from each step's dense output, which away from feasibility ends off the next node: not compared.)
+        for n in node_names:
+            d = B.decl[n]
+            if ("main|sig:" + n) in res:
+                got_nodes = res["intg:" + n][:, [k * M for k in range(N + 1)]]
+                if not close(got_nodes, res["main|sig:" + n], rtol=1e-10, atol=1e-10):
+                    fails.append(Fail("node-values-on-integrator-grid", dict(feats, quad=bool(d.get("quad"))), {"name": n, "on_integrator_grid_at_nodes": got_nodes, "on_control_grid": res["main|sig:" + n]}))
         # value() of non-signal expressions
         cdata = ref.override_params(obs.unpack(res, "main"), sp, N)
         tr = ref.Traj(R, cdata, M)
